@@ -37,6 +37,7 @@ type UnitResult struct {
 	Notes       []string
 	HavocAlls   []string
 	Trusted     bool
+	Dependency  bool // not tagged with the property: verified because a tagged unit uses its contract
 	Callees     []string
 	Assumes     []string
 	ctx         *SMTCtx
